@@ -310,6 +310,25 @@ example : literalCur b!"hello" b!"" = .rejected := by decide
 /-- before 4f20d4d -/
 theorem before_fix_empty_literal_pattern_diverges : literalOld b!"hello" b!"" = .diverges := by decide
 
+/-! ## scanner.rs::process_file_content — capture-group references of `replace` -/
+
+/-- For every match, whichever groups took part in it and whichever the replacement mentions, the `$N` expansion
+    cannot panic: unset groups are read with `captures.get(i)` and skipped. -/
+theorem groupExpansion_total (groups : List (Option Bytes × Bool)) : (expandAll expandGroupCur groups).isSome = true := by
+  have hflag : Gen.PanicGuards.capturesGetChecked = true := by decide
+  induction groups with
+  | nil => rfl
+  | cons g rest ih =>
+    obtain ⟨c, m⟩ := g
+    cases h : expandAll expandGroupCur rest with
+    | none => rw [h] at ih; cases ih
+    | some xs => simp [expandAll, h, expandGroupCur, hflag, expandGroupGet]
+
+/-- the `Index` shape (`&captures[i]`): `(?:set_(\w+)|get_(\w+))` on `get_x` with `$1` in the replacement -/
+theorem index_shape_panics_on_unset_group :
+    expandAll expandGroupIndex [(none, true), (some b!"x", false)] = none := by decide
+example : expandAll expandGroupCur [(none, true), (some b!"x", false)] = some [none, some b!"x"] := by decide
+
 /-! ## output.rs::format_json -/
 
 /-- the plan value is built without unwrapping: a serialisation error (non-UTF-8 path) becomes `null` -/
@@ -398,6 +417,7 @@ def C16_full : Prop :=
   (∀ n start i byteLen, start ≤ i → i ≤ n → upperRunCur n start i byteLen = true) ∧
   (∀ line pattern, literalCur line pattern ≠ .diverges) ∧
   (∀ ser : Option Unit, (planValueCur ser).isSome = true) ∧
+  (∀ groups, (expandAll expandGroupCur groups).isSome = true) ∧
   (∀ o, exitStatus o ∈ documented)
 
 theorem C16_full_holds : C16_full :=
@@ -405,7 +425,7 @@ theorem C16_full_holds : C16_full :=
    fun raw col content repl => lineAfterOfRaw_total raw content repl col,
    resolverPrefix_total, colourSlices_total, replaceCaseInsensitive_total, patternPart_total,
    applyEdits_never_panics, lockAge_total, upperRun_total, literalSearch_terminates,
-   fun ser => planJson_total ser, exit_status_in_documented_set⟩
+   fun ser => planJson_total ser, groupExpansion_total, exit_status_in_documented_set⟩
 
 /-- the same statement about the shapes the code had before the nine fixes -/
 def C16_full_before_fixes : Prop :=
